@@ -17,7 +17,8 @@ RULE = (
     "rotation incl. exact multiples of 90 degrees, optional skew, both starting parities, reference pixel inside / centred / "
     "far outside, CD or CDELT+PC spelling; image size 1..200 per axis; object kind: array-backed Image (scalar or colour), "
     "PIL-backed Image with or without its array already cached, data-less ImageDescription with 2-D or (h,w,planes) shape; "
-    "operation sequence: 1-6 of flip / ensure_negative_parity in any order; a third of the cases handle 1-3 other objects (other WCS, "
+    "a sixth of the WCS list the latitude axis first; operation sequence: 1-6 of flip / ensure_negative_parity in any order, in a sixth of the cases plus one flip that meets a "
+    "transient failure inside astropy (the object must afterwards be as before or completely flipped); a third of the cases handle 1-3 other objects (other WCS, "
     "other parity) first, each created, queried, operated on and released, in the same process). Oracle: parity sign negated by a flip; rows "
     "reversed and otherwise identical; for sampled pixel coordinates (corners, centre, non-integers, generated) "
     "world(x,y) before = world(x,h-1-y) after, compared as unit vectors (1e-10 rad); ensure_negative_parity gives -1 and is "
@@ -31,7 +32,70 @@ def world(wcs, xs, ys):
     with warnings.catch_warnings():
         warnings.simplefilter("ignore")
         w = wcs.wcs_pix2world(np.column_stack([xs, ys]), 0)
-    return rt.lonlat_to_vec(np.radians(w[:, 0]), np.radians(w[:, 1])), np.isfinite(w).all(axis=1)
+    ilon, ilat = (1, 0) if wcs.wcs.lat == 0 else (0, 1)
+    return rt.lonlat_to_vec(np.radians(w[:, ilon]), np.radians(w[:, ilat])), np.isfinite(w).all(axis=1)
+
+
+class TransientFault(MemoryError):
+    pass
+
+
+def check_failed_flip(obj, arr0, case, what, where):
+    """one transient failure (out of memory) inside astropy while flip_parity runs - in the first serialisation of the WCS or in the
+    construction of a WCS object. The call may raise or cope; afterwards every pixel value must still be where it was on the
+    sky: the object is either as it was, or completely flipped - never rows reversed under the old WCS or the reverse"""
+    from astropy.wcs import WCS
+
+    h = case["height"]
+    xs, ys = sample_pixels(case)
+    p0 = obj.get_parity_sign()
+    v0, ok0 = world(obj.wcs, xs, ys)
+    armed = [True]
+    orig_to_header, orig_init = WCS.to_header, WCS.__init__
+
+    def to_header(self, *a, **k):
+        if armed[0] and where == "to_header":
+            armed[0] = False
+            raise TransientFault("injected: out of memory while serialising the WCS")
+        return orig_to_header(self, *a, **k)
+
+    def init(self, *a, **k):
+        if armed[0] and where == "new_wcs":
+            armed[0] = False
+            raise TransientFault("injected: out of memory while building a WCS object")
+        return orig_init(self, *a, **k)
+
+    WCS.to_header, WCS.__init__ = to_header, init
+    try:
+        try:
+            obj.flip_parity()
+            failed = False
+        except TransientFault:
+            failed = True
+    finally:
+        WCS.to_header, WCS.__init__ = orig_to_header, orig_init
+    with toasty_call("flip", what + " (after a flip that met a transient failure)"):
+        p1 = obj.get_parity_sign()
+        a1 = None if arr0 is None else np.asarray(obj.asarray())
+    if arr0 is not None and a1.shape == arr0.shape and np.array_equal(a1, arr0) and not (h > 1 and np.array_equal(a1, arr0[::-1])):
+        rows = "unchanged"
+    elif arr0 is not None and a1.shape == arr0.shape and np.array_equal(a1, arr0[::-1]) and not np.array_equal(a1, arr0):
+        rows = "reversed"
+    elif arr0 is None or (a1.shape == arr0.shape and np.array_equal(a1, arr0)):
+        rows = "either"  # no data, or rows that read the same both ways
+    else:
+        raise Violation("rows-reversed", f"{what}: after a flip that met a transient failure the pixel rows are neither as before nor reversed")
+    for state, ys1 in (("unchanged", ys), ("reversed", h - 1 - ys)):
+        if rows not in (state, "either"):
+            continue
+        v1, ok1 = world(obj.wcs, xs, ys1)
+        good = (not ok0.any()) or (ok1[ok0].all() and rt.ang_dist(v0[ok0], v1[ok0]).max() <= 1e-10)
+        if good and p1 == (p0 if state == "unchanged" else -p0):
+            return (arr0 if state == "unchanged" or arr0 is None else arr0[::-1].copy()), failed
+    raise Violation(
+        "sky-position",
+        f"{what}: a flip_parity call met one transient failure ({where}) and {'raised' if failed else 'returned'}; afterwards the pixel rows are {rows} but the WCS (parity {p0} -> {p1}) does not go with them: pixel values have moved on the sky; size {case['width']}x{h}, wcs {case['wcs']}",
+    )
 
 
 def make_object(case):
@@ -143,20 +207,25 @@ def exec_one(case):
 
         xs, ys = sample_pixels(case)
         v0, ok0 = world(obj.wcs, xs, ys)
+        p_own = obj.get_parity_sign()
         comp = ImageDescription(mode=ImageMode.F32, shape=(case["height"], case["width"]), wcs=obj.wcs)
         with toasty_call("flip", "flipping a data-less description built on the same WCS object"):
             for op in case["companion"].split("+"):
                 comp.flip_parity() if op == "flip" else comp.ensure_negative_parity()
         v1, ok1 = world(obj.wcs, xs, ys)
-        if obj.get_parity_sign() != exp_p or not np.array_equal(ok0, ok1) or (ok0.any() and rt.ang_dist(v0[ok0], v1[ok0]).max() > 1e-12):
-            raise Violation("sky-position", f"{what}: flipping a description that was built on this object's WCS changed this object's own WCS (parity now {obj.get_parity_sign()}, was {exp_p}); its pixels moved on the sky although its rows were not reversed")
+        if obj.get_parity_sign() != p_own or not np.array_equal(ok0, ok1) or (ok0.any() and rt.ang_dist(v0[ok0], v1[ok0]).max() > 1e-12):
+            raise Violation("sky-position", f"{what}: flipping a description that was built on this object's WCS changed this object's own WCS (parity now {obj.get_parity_sign()}, was {p_own}); its pixels moved on the sky although its rows were not reversed")
     with toasty_call("parity"):
         p = obj.get_parity_sign()
-    if p != exp_p:
+    if p != exp_p and not case["wcs"].get("latfirst"):
+        # (with the latitude axis first the sign of the stored matrix's determinant is the opposite one; the statement only speaks of
+        # the sign being negated by a flip and of -1 after ensure_negative_parity, so the absolute sign is not judged there)
         raise Violation("parity-sign", f"{what}: parity sign {p}, CD determinant says {exp_p}; wcs {case['wcs']}")
     for op in case["ops"]:
         if op == "flip":
             arr = check_flip(obj, arr, case, what)
+        elif op.startswith("failflip"):
+            arr, _ = check_failed_flip(obj, arr, case, what, op.split(":")[1])
         else:
             xs, ys = sample_pixels(case)
             before_p = obj.get_parity_sign()
@@ -188,7 +257,11 @@ def exec_one(case):
                         raise Violation("rows-reversed", f"{what}: ensure_negative_parity flipped the WCS but did not reverse the rows ({case['kind']})")
                     arr = arr[::-1].copy()
     s = case["wcs"]
-    cls = [case["kind"], s["proj"], s["spelling"], "parity%+d" % s["parity"], s["crpix_mode"], "+".join(case["ops"]) if len(case["ops"]) <= 3 else f"{len(case['ops'])}-ops"]
+    cls = [case["kind"], s["proj"], s["spelling"], "parity%+d" % s["parity"], s["crpix_mode"], "+".join(o.split(":")[0] for o in case["ops"]) if len(case["ops"]) <= 3 else f"{len(case['ops'])}-ops"]
+    if s.get("latfirst"):
+        cls.append("latitude-axis-first")
+    if any(o.startswith("failflip") for o in case["ops"]):
+        cls.append("flip-with-transient-failure")
     if case["ops"].count("flip") >= 3:
         cls.append("three-or-more-flips")
     if s.get("lonpole") is not None:
@@ -224,6 +297,13 @@ def strat(draw, tier):
     if draw(st.integers(0, 6)) == 0:
         # very fine pixel scales (VLBI maps): down to a few micro-arcseconds per pixel
         case["wcs"]["scale"] = 10 ** draw(st.floats(-9.3, -4.0))
+    if draw(st.integers(0, 5)) == 0:
+        case["wcs"]["latfirst"] = True  # CTYPE1 = DEC--xxx, CTYPE2 = RA---xxx
+    if draw(st.integers(0, 5)) == 0:
+        # one flip attempt of the history meets a transient failure inside astropy
+        ops = list(case["ops"])
+        ops.insert(draw(st.integers(0, len(ops))), "failflip:" + draw(st.sampled_from(["to_header", "new_wcs"])))
+        case["ops"] = ops
     if draw(st.integers(0, 4)) == 0:
         # another object that shares this one's WCS object is flipped first: this one must not notice
         case["companion"] = draw(st.sampled_from(["flip", "ensure", "flip+flip"]))
